@@ -13,6 +13,7 @@ import (
 	"context"
 	"encoding/json"
 	"fmt"
+	"runtime/debug"
 	"sort"
 	"strings"
 	"sync"
@@ -25,7 +26,6 @@ import (
 
 	schedulingv1alpha2 "github.com/NVIDIA/KAI-scheduler/pkg/apis/scheduling/v1alpha2"
 	"github.com/NVIDIA/KAI-scheduler/pkg/common/constants"
-	"github.com/NVIDIA/KAI-scheduler/pkg/common/resources"
 	sim "github.com/NVIDIA/KAI-scheduler/zz_verif/bindersim"
 	kit "github.com/NVIDIA/KAI-scheduler/zz_verif/verifkit"
 )
@@ -33,18 +33,6 @@ import (
 const prop = "C17"
 
 func TestMain(m *testing.M) { kit.Main(m) }
-
-// multiGroupHandlerDefect probes, once per process, whether the written-up defect
-// finding-multi-fraction-delete-orphans (NOTES.md) is present in the tree under test: the helper the
-// pod handlers use to learn a pod's GPU groups returns nothing for a pod that carries only the
-// multi-fraction label form. While it is present, its trigger - a delete / completion event of a pod
-// labelled in the multi-fraction form - is excluded from the histories (and counted); once the tree
-// is fixed the exclusion switches itself off.
-var multiGroupHandlerDefect = func() bool {
-	p := &v1.Pod{}
-	p.Labels = map[string]string{constants.MultiGpuGroupLabelPrefix + "g": "g"}
-	return len(resources.GetGpuGroups(p)) == 0
-}()
 
 // ---------------------------------------------------------------------------------------------
 // case
@@ -58,6 +46,8 @@ type GroupDef struct {
 //
 //	bind        create pod p<Pod> (+ its BindRequest) if it does not exist yet and reconcile the request
 //	retry       reconcile the existing request of pod p<Pod> again (controller requeue)
+//	rebind      the scheduler, having dropped a terminally failed request of the still unbound pod, creates a
+//	            new request for it with other Groups, which is reconciled
 //	start       kubelet starts the bound pod (Pending -> Running), update event delivered
 //	complete    the running pod reaches Phase (Succeeded / Failed), update event delivered
 //	deletePod   the pod object is removed, delete event delivered
@@ -66,17 +56,18 @@ type GroupDef struct {
 //	sync        Sync()
 //	batch       Ops run concurrently under the schedule controller (Choices = recorded schedule)
 type Op struct {
-	Type    string     `json:"type"`
-	Pod     int        `json:"pod,omitempty"`
-	NS      string     `json:"ns,omitempty"`
-	Multi   bool       `json:"multi,omitempty"`
-	Groups  []string   `json:"groups,omitempty"`
-	Phase   string     `json:"phase,omitempty"`
-	Node    string     `json:"node,omitempty"`
-	Fault   *sim.Fault `json:"fault,omitempty"`
-	Ops     []Op       `json:"ops,omitempty"`
-	Choices []int      `json:"choices,omitempty"`
-	Start   bool       `json:"start,omitempty"` // bind/retry: the kubelet starts the pod right after a successful bind
+	Type    string      `json:"type"`
+	Pod     int         `json:"pod,omitempty"`
+	NS      string      `json:"ns,omitempty"`
+	Multi   bool        `json:"multi,omitempty"`
+	Groups  []string    `json:"groups,omitempty"`
+	Phase   string      `json:"phase,omitempty"`
+	Node    string      `json:"node,omitempty"`
+	Faults  []sim.Fault `json:"faults,omitempty"` // injected into this event's client calls (K counts the event's own calls)
+	Ops     []Op        `json:"ops,omitempty"`
+	Choices []int       `json:"choices,omitempty"`
+	NoLimit bool        `json:"noBackoffLimit,omitempty"` // bind: the request has no BackoffLimit (one failure is terminal for the scheduler)
+	Start   bool        `json:"start,omitempty"`          // bind/retry: the kubelet starts the pod right after a successful bind
 }
 
 type Case struct {
@@ -84,7 +75,6 @@ type Case struct {
 	IndexPolicy string     `json:"indexPolicy"`
 	CDI         bool       `json:"cdi,omitempty"`
 	Ops         []Op       `json:"ops"`
-	NoExclude   bool       `json:"noExclude,omitempty"` // replay of a written-up finding
 }
 
 func (c *Case) nodeOf(g string) string {
@@ -112,24 +102,37 @@ type genState struct {
 	pods []genPod
 }
 
-func genFault(t *rapid.T, pct int, maxK int, modes ...string) *sim.Fault {
+func genFault(t *rapid.T, pct int, maxK int, modes ...string) []sim.Fault {
 	if !sim.Chance(t, pct, "hasFault") {
 		return nil
 	}
-	f := &sim.Fault{K: 1 + sim.Uniform(t, maxK, "faultK"), Mode: modes[sim.Uniform(t, len(modes), "faultMode")]}
-	switch f.Mode {
-	case "error":
-		f.Err = sim.Pick(t, "errKind", "internal", "conflict", "timeout", "unavailable")
-	case "mute":
-		f.Err = sim.Pick(t, "muteKind", "closed", "errorevent")
+	mk := func(k int, mode string) sim.Fault {
+		f := sim.Fault{K: k, Mode: mode}
+		switch f.Mode {
+		case "error":
+			f.Err = sim.Pick(t, "errKind", "internal", "conflict", "timeout", "unavailable")
+		case "mute":
+			f.Err = sim.Pick(t, "muteKind", "closed", "errorevent")
+		}
+		return f
 	}
-	return f
+	k := 1 + sim.Uniform(t, maxK, "faultK")
+	if maxK > 8 && sim.Chance(t, 40, "faultInReserveWindow") {
+		// calls 5..16 of a bind are where reservation pods are found / created / watched and the consumer is labelled
+		k = 5 + sim.Uniform(t, 12, "faultKWindow")
+	}
+	fs := []sim.Fault{mk(k, modes[sim.Uniform(t, len(modes), "faultMode")])}
+	// a second, later fault (it can hit the clean-up the first one caused)
+	if fs[0].Mode != "crash" && maxK > 8 && sim.Chance(t, 35, "secondFault") {
+		fs = append(fs, mk(fs[0].K+1+sim.Uniform(t, 14, "faultK2"), sim.Pick(t, "faultMode2", "error", "error", "crash")))
+	}
+	return fs
 }
 
 // genBind draws a bind of a new pod; focus (if set) is a group the pod must use.
 func (g *genState) genBind(t *rapid.T, focus string) Op {
 	c := g.c
-	op := Op{Type: "bind", Pod: len(g.pods), NS: sim.Pick(t, "ns", "nsa", "nsb")}
+	op := Op{Type: "bind", Pod: len(g.pods), NS: sim.Pick(t, "ns", "a-team", "nsb")}
 	first := focus
 	if first == "" {
 		first = c.Groups[sim.Uniform(t, len(c.Groups), "group")].Name
@@ -157,10 +160,31 @@ func (g *genState) genBind(t *rapid.T, focus string) Op {
 			op.Groups[0], op.Groups[1] = op.Groups[1], op.Groups[0]
 		}
 	}
-	op.Fault = genFault(t, 40, 26, "error", "error", "crash", "crash", "mute")
+	op.Faults = genFault(t, 40, 26, "error", "error", "crash", "crash", "mute")
 	op.Start = sim.Chance(t, 60, "startAfterBind")
+	op.NoLimit = sim.Chance(t, 50, "noBackoffLimit")
 	g.pods = append(g.pods, genPod{ns: op.NS, multi: op.Multi, groups: op.Groups})
 	return op
+}
+
+// genRebind draws a new request (other groups, same number of devices) for an existing pod.
+func (g *genState) genRebind(t *rapid.T, pod int) (Op, bool) {
+	n := len(g.pods[pod].groups)
+	first := g.c.Groups[sim.Uniform(t, len(g.c.Groups), "rebindGroup")].Name
+	groups := []string{first}
+	for _, d := range g.c.Groups {
+		if len(groups) < n && d.Node == g.c.nodeOf(first) && d.Name != first {
+			groups = append(groups, d.Name)
+		}
+	}
+	if len(groups) != n {
+		return Op{}, false
+	}
+	if n > 1 && sim.Chance(t, 50, "rebindSwap") {
+		groups[0], groups[1] = groups[1], groups[0]
+	}
+	g.pods[pod].groups = groups
+	return Op{Type: "rebind", Pod: pod, Groups: groups, Start: sim.Chance(t, 60, "startAfterBind"), NoLimit: true}, true
 }
 
 // pickPod draws an existing pod, preferring those that use group focus.
@@ -199,20 +223,20 @@ func (g *genState) genSimple(t *rapid.T, focus string, inBatch bool) Op {
 		if focus != "" {
 			op.Node = g.c.nodeOf(focus)
 		}
-		op.Fault = genFault(t, 10, 6, "error", "crash")
+		op.Faults = genFault(t, 10, 6, "error", "crash")
 	case "sync":
-		op.Fault = genFault(t, 10, 6, "error", "crash")
+		op.Faults = genFault(t, 10, 6, "error", "crash")
 	default:
 		op.Pod, _ = g.pickPod(t, focus)
 		switch ty {
 		case "retry":
-			op.Fault = genFault(t, 30, 26, "error", "crash", "mute")
+			op.Faults = genFault(t, 30, 26, "error", "crash", "mute")
 			op.Start = sim.Chance(t, 60, "startAfterBind")
 		case "complete":
 			op.Phase = sim.Pick(t, "phase", "Succeeded", "Failed")
-			op.Fault = genFault(t, 12, 5, "error", "crash")
+			op.Faults = genFault(t, 12, 5, "error", "crash")
 		case "deletePod", "deleteReq":
-			op.Fault = genFault(t, 12, 5, "error", "crash")
+			op.Faults = genFault(t, 12, 5, "error", "crash")
 		}
 	}
 	return op
@@ -236,17 +260,41 @@ func genCase(t *rapid.T) *Case {
 			focus := c.Groups[sim.Uniform(t, len(c.Groups), "focus")].Name
 			b := Op{Type: "batch"}
 			m := 2 + sim.Weighted(t, "batchSize", 7, 3)
-			used := map[int]bool{}
+			// what can really overlap: several reconcile workers (one per request), the pod controller's
+			// handler goroutine (one event at a time), the BindRequest controller's handler goroutine (one
+			// event at a time), node / start-up syncs
+			reconciled := map[int]bool{}
+			podEvent, reqEvent := false, false
+			add := func(op Op) {
+				switch op.Type {
+				case "bind", "retry":
+					if reconciled[op.Pod] {
+						return
+					}
+					reconciled[op.Pod] = true
+				case "start", "complete", "deletePod":
+					if podEvent {
+						return
+					}
+					podEvent = true
+				case "deleteReq":
+					if reqEvent {
+						return
+					}
+					reqEvent = true
+				}
+				if len(b.Ops) < 4 {
+					b.Ops = append(b.Ops, op)
+				}
+			}
 			for j := 0; j < m; j++ {
 				op := g.genSimple(t, focus, true)
-				// one event per pod in a batch: the events of one object are delivered in order
-				if op.Type != "syncNode" && op.Type != "sync" {
-					if used[op.Pod] {
-						continue
-					}
-					used[op.Pod] = true
+				add(op)
+				// the same pod is hit by an event while its request is being reconciled (user deletes the pod,
+				// scheduler drops the request)
+				if (op.Type == "bind" || op.Type == "retry") && sim.Chance(t, 25, "samePodRace") {
+					add(Op{Type: sim.Pick(t, "raceEvent", "deletePod", "deletePod", "deleteReq"), Pod: op.Pod})
 				}
-				b.Ops = append(b.Ops, op)
 			}
 			if len(b.Ops) >= 2 {
 				c.Ops = append(c.Ops, b)
@@ -255,7 +303,22 @@ func genCase(t *rapid.T) *Case {
 			c.Ops = append(c.Ops, b.Ops...)
 			continue
 		}
-		c.Ops = append(c.Ops, g.genSimple(t, "", false))
+		op := g.genSimple(t, "", false)
+		c.Ops = append(c.Ops, op)
+		if (op.Type == "bind" || op.Type == "retry") && len(op.Faults) > 0 {
+			// what the scheduler / the controller do with a failed request: drop it, or try again
+			switch sim.Weighted(t, "followUp", 50, 30, 20) {
+			case 1:
+				c.Ops = append(c.Ops, Op{Type: "deleteReq", Pod: op.Pod})
+				if sim.Chance(t, 60, "rebindAfterDrop") {
+					if rb, ok := g.genRebind(t, op.Pod); ok {
+						c.Ops = append(c.Ops, rb)
+					}
+				}
+			case 2:
+				c.Ops = append(c.Ops, Op{Type: "retry", Pod: op.Pod, Start: true})
+			}
+		}
 	}
 	return c
 }
@@ -268,14 +331,21 @@ type podInfo struct {
 	multi    bool
 	groups   []string
 	node     string
+	// the last request of the pod was terminally Failed (phase Failed and no BackoffLimit or attempts
+	// >= limit, bindrequest_info.IsFailed) when the scheduler dropped it
+	droppedTerminal bool
 }
 
 type opResult struct {
-	op        string
-	calls     []sim.Call
-	fired     bool // an injected fault fired
-	firedSync bool // ... outside Bind (in Rollback, a handler's sync, a sync op): the following sync itself was hit
-	skipped   bool
+	op            string
+	calls         []sim.Call
+	fired         bool // an injected fault fired
+	firedSync     bool // ... outside Bind (in Rollback, a handler's sync, a sync op): the following sync itself was hit
+	skipped       bool
+	addressed     []string // groups the sync(s) of this event are about, by the documented mechanism
+	staleAtRebind []string // rebind: groups the pod still carried from its dropped request
+	// sanity (implied by C11's "a fault-free attempt succeeds"): set when it does not
+	unboundAfterCleanBind string
 }
 
 type Trace struct {
@@ -289,6 +359,7 @@ type TraceStep struct {
 	Restart  []string            `json:"restartSync,omitempty"`
 	Extra    []string            `json:"extraSync,omitempty"`
 	After    *sim.Snapshot       `json:"after,omitempty"`
+	Deferred []string            `json:"deferredGroups,omitempty"`
 }
 
 type world struct {
@@ -302,9 +373,23 @@ type world struct {
 	nontriv bool
 	incon   string
 	mu      sync.Mutex
+	// groups whose following sync was itself hit by an injected failure: the reservation <=> consumer
+	// clause is judged for them only after the next fault-free sync that covers them
+	tainted map[string]bool
 }
 
-func (w *world) class(s string) { w.classes[s] = true }
+func (w *world) class(s string) {
+	w.mu.Lock()
+	w.classes[s] = true
+	w.mu.Unlock()
+}
+
+// pod returns the harness' bookkeeping entry of pod i (nil if no bind of it was generated yet).
+func (w *world) pod(i int) *podInfo {
+	w.mu.Lock()
+	defer w.mu.Unlock()
+	return w.pods[i]
+}
 
 func (w *world) getPod(pi *podInfo) *v1.Pod {
 	p := &v1.Pod{}
@@ -322,45 +407,68 @@ func (w *world) getReq(pi *podInfo) *schedulingv1alpha2.BindRequest {
 	return br
 }
 
-func faults(f *sim.Fault) []sim.Fault {
-	if f == nil {
-		return nil
-	}
-	return []sim.Fault{*f}
-}
-
 // opFunc returns the body of one event for actor id (0 = sequential).
 func (w *world) opFunc(op Op, id int, res *opResult) func() {
 	ctx := context.Background()
 	s := w.s
 	res.op = describe(op)
 	switch op.Type {
-	case "bind", "retry":
+	case "bind", "retry", "rebind":
 		return func() {
-			pi := w.pods[op.Pod]
+			pi := w.pod(op.Pod)
 			if op.Type == "bind" && pi == nil {
 				pi = &podInfo{name: podName(op.Pod), ns: op.NS, multi: op.Multi, groups: op.Groups, node: w.c.nodeOf(op.Groups[0])}
+				w.mu.Lock()
 				w.pods[op.Pod] = pi
+				w.mu.Unlock()
 				ps := sim.PodShape{Name: pi.name, NS: pi.ns, Kind: "fraction", Fraction: "0.25", Containers: 1 + op.Pod%2}
 				if pi.multi {
 					ps.Kind, ps.Devices = "multi", len(pi.groups)
 				}
 				s.EnvStep("create-pod+request", pi.ns+"/"+pi.name)
 				must(s.Base.Create(ctx, sim.BuildPod(ps)))
-				must(s.Base.Create(ctx, sim.BuildRequest(ps, sim.ReqShape{Node: pi.node, Groups: pi.groups, Portion: "0.25", Backoff: ptr(5)})))
+				must(s.Base.Create(ctx, sim.BuildRequest(ps, sim.ReqShape{Node: pi.node, Groups: pi.groups, Portion: "0.25", Backoff: backoff(op.NoLimit)})))
+			}
+			if op.Type == "rebind" {
+				if pi == nil {
+					res.skipped = true
+					return
+				}
+				s.EnvStep("scheduler-new-request", pi.ns+"/"+pi.name)
+				p := w.getPod(pi)
+				if p == nil || p.Spec.NodeName != "" || w.getReq(pi) != nil || !pi.droppedTerminal {
+					res.skipped = true
+					return
+				}
+				if stale := staleGroups(sim.ViewPod(p).Groups, op.Groups); len(stale) > 0 {
+					w.class("rebind-of-pod-still-labelled")
+					res.staleAtRebind = stale
+				}
+				pi.groups, pi.node, pi.droppedTerminal = op.Groups, w.c.nodeOf(op.Groups[0]), false
+				ps := sim.PodShape{Name: pi.name, NS: pi.ns, Kind: "fraction"}
+				if pi.multi {
+					ps.Kind = "multi"
+				}
+				must(s.Base.Create(ctx, sim.BuildRequest(ps, sim.ReqShape{Node: pi.node, Groups: pi.groups, Portion: "0.25"})))
 			}
 			if pi == nil || w.getReq(pi) == nil {
 				res.skipped = true
 				return
 			}
-			s.Begin(id, faults(op.Fault))
+			res.addressed = w.groupsOfNode(pi.node) // Bind starts with SyncForNode, Rollback ends with it
+			s.Begin(id, op.Faults)
 			_, _, pn := w.proc.Reconcile(pi.ns, pi.name)
 			if pn != "" {
 				panic("reconcile panicked: " + pn)
 			}
+			if id == 0 && len(op.Faults) == 0 {
+				if p := w.getPod(pi); p != nil && p.Spec.NodeName == "" {
+					res.unboundAfterCleanBind = fmt.Sprintf("a fault-free, non-concurrent reconcile of the request of pod %s (groups %v) leaves the pod unbound", pi.name, pi.groups)
+				}
+			}
 			if op.Start && !s.Crashed() {
+				s.EnvStep("kubelet-start", pi.ns+"/"+pi.name)
 				if p := w.getPod(pi); p != nil && p.Spec.NodeName != "" && p.Status.Phase == v1.PodPending {
-					s.EnvStep("kubelet-start", pi.ns+"/"+pi.name)
 					old := p.DeepCopy()
 					p.Status.Phase = v1.PodRunning
 					must(s.Base.Status().Update(ctx, p))
@@ -370,7 +478,7 @@ func (w *world) opFunc(op Op, id int, res *opResult) func() {
 		}
 	case "start":
 		return func() {
-			pi := w.pods[op.Pod]
+			pi := w.pod(op.Pod)
 			if pi == nil {
 				res.skipped = true
 				return
@@ -389,7 +497,7 @@ func (w *world) opFunc(op Op, id int, res *opResult) func() {
 		}
 	case "complete":
 		return func() {
-			pi := w.pods[op.Pod]
+			pi := w.pod(op.Pod)
 			if pi == nil {
 				res.skipped = true
 				return
@@ -400,19 +508,16 @@ func (w *world) opFunc(op Op, id int, res *opResult) func() {
 				res.skipped = true
 				return
 			}
-			if w.excludedMultiEvent(p) {
-				res.skipped = true
-				return
-			}
+			res.addressed = sim.ViewPod(p).Groups
 			old := p.DeepCopy()
 			p.Status.Phase = v1.PodPhase(op.Phase)
 			must(s.Base.Status().Update(ctx, p))
-			s.Begin(id, faults(op.Fault))
+			s.Begin(id, op.Faults)
 			w.proc.PodUpdated(old, p)
 		}
 	case "deletePod":
 		return func() {
-			pi := w.pods[op.Pod]
+			pi := w.pod(op.Pod)
 			if pi == nil {
 				res.skipped = true
 				return
@@ -423,10 +528,7 @@ func (w *world) opFunc(op Op, id int, res *opResult) func() {
 				res.skipped = true
 				return
 			}
-			if w.excludedMultiEvent(p) {
-				res.skipped = true
-				return
-			}
+			res.addressed = sim.ViewPod(p).Groups
 			if err := s.Base.Delete(ctx, p.DeepCopy()); err != nil && !apierrors.IsNotFound(err) {
 				panic(err)
 			}
@@ -440,12 +542,12 @@ func (w *world) opFunc(op Op, id int, res *opResult) func() {
 					}
 				}
 			}
-			s.Begin(id, faults(op.Fault))
+			s.Begin(id, op.Faults)
 			w.proc.PodDeleted(p)
 		}
 	case "deleteReq":
 		return func() {
-			pi := w.pods[op.Pod]
+			pi := w.pod(op.Pod)
 			if pi == nil {
 				res.skipped = true
 				return
@@ -457,37 +559,66 @@ func (w *world) opFunc(op Op, id int, res *opResult) func() {
 				return
 			}
 			must(s.Base.Delete(ctx, br.DeepCopy()))
-			s.Begin(id, faults(op.Fault))
+			pi.droppedTerminal = br.Status.Phase == schedulingv1alpha2.BindRequestPhaseFailed &&
+				(br.Spec.BackoffLimit == nil || br.Status.FailedAttempts >= *br.Spec.BackoffLimit)
+			res.addressed = append([]string(nil), br.Spec.SelectedGPUGroups...)
+			s.Begin(id, op.Faults)
 			w.proc.RequestDeleted(br)
 		}
 	case "syncNode":
 		return func() {
-			s.Begin(id, faults(op.Fault))
+			res.addressed = w.groupsOfNode(op.Node)
+			s.Begin(id, op.Faults)
 			_ = w.proc.RRS.SyncForNode(ctx, op.Node)
 		}
 	case "sync":
 		return func() {
-			s.Begin(id, faults(op.Fault))
+			for _, g := range w.c.Groups {
+				res.addressed = append(res.addressed, g.Name)
+			}
+			s.Begin(id, op.Faults)
 			_ = w.proc.RRS.Sync(ctx)
 		}
 	}
 	return func() { res.skipped = true }
 }
 
-// excludedMultiEvent: trigger of the known defect (see multiGroupHandlerDefect).
-func (w *world) excludedMultiEvent(p *v1.Pod) bool {
-	if !multiGroupHandlerDefect || w.c.NoExclude {
-		return false
+// safely runs one event body; a panic of the code under test (or of the harness) is returned as text.
+// The schedule draws of rapid never happen inside fn.
+func safely(fn func()) (panicked string) {
+	defer func() {
+		if r := recover(); r != nil {
+			panicked = fmt.Sprintf("%v\n%s", r, debug.Stack())
+		}
+	}()
+	fn()
+	return ""
+}
+
+func (w *world) podKeyOf(op *Op) string {
+	if pi := w.pod(op.Pod); pi != nil {
+		return pi.ns + "/" + pi.name
 	}
-	for k := range p.Labels {
-		if strings.HasPrefix(k, constants.MultiGpuGroupLabelPrefix) {
-			w.mu.Lock()
-			w.notes["excluded:multi-fraction-pod-event"]++
-			w.mu.Unlock()
+	return ""
+}
+
+func contains(xs []string, x string) bool {
+	for _, y := range xs {
+		if y == x {
 			return true
 		}
 	}
 	return false
+}
+
+func (w *world) groupsOfNode(node string) []string {
+	var out []string
+	for _, g := range w.c.Groups {
+		if g.Node == node {
+			out = append(out, g.Name)
+		}
+	}
+	return out
 }
 
 func describe(op Op) string {
@@ -502,6 +633,30 @@ func must(err error) {
 }
 
 func ptr(v int32) *int32 { return &v }
+
+func backoff(noLimit bool) *int32 {
+	if noLimit {
+		return nil
+	}
+	return ptr(5)
+}
+
+// staleGroups: groups carried by the pod that the new request does not select.
+func staleGroups(carried, selected []string) []string {
+	var out []string
+	for _, g := range carried {
+		found := false
+		for _, x := range selected {
+			if x == g {
+				found = true
+			}
+		}
+		if !found {
+			out = append(out, g)
+		}
+	}
+	return out
+}
 
 func strs(cs []sim.Call) []string {
 	out := make([]string, len(cs))
@@ -524,12 +679,7 @@ func execute(c *Case, choose func(step int, ready []int) int) (sig, msg string, 
 	}
 	s := sim.New(objs, nil)
 	s.CDI, s.IndexPolicy = c.CDI, c.IndexPolicy
-	w = &world{c: c, s: s, proc: s.NewProc(), pods: map[int]*podInfo{}, trace: &Trace{}, classes: map[string]bool{}, notes: map[string]int64{}}
-	defer func() {
-		if r := recover(); r != nil {
-			sig, msg = "harness-panic", fmt.Sprint(r)
-		}
-	}()
+	w = &world{c: c, s: s, proc: s.NewProc(), pods: map[int]*podInfo{}, trace: &Trace{}, classes: map[string]bool{}, notes: map[string]int64{}, tainted: map[string]bool{}}
 	for oi := range c.Ops {
 		op := &c.Ops[oi]
 		step := TraceStep{Op: describe(*op)}
@@ -573,6 +723,7 @@ func execute(c *Case, choose func(step int, ready []int) int) (sig, msg string, 
 				w.class("blocked-on-group-mutex")
 			}
 			calls := s.TakeCalls()
+			s.TakeMarks()
 			step.Calls = strs(calls)
 			for j := range op.Ops {
 				for _, cl := range calls {
@@ -588,11 +739,21 @@ func execute(c *Case, choose func(step int, ready []int) int) (sig, msg string, 
 		} else {
 			r := &opResult{}
 			results = append(results, r)
-			w.opFunc(*op, 0, r)()
+			if pn := safely(w.opFunc(*op, 0, r)); pn != "" {
+				return "panic", fmt.Sprintf("step %d (%s) panicked: %s", oi, step.Op, pn), w
+			}
 			r.calls = s.TakeCalls()
 			step.Calls = strs(r.calls)
+			if marks := s.TakeMarks(); (op.Type == "bind" || op.Type == "retry" || op.Type == "rebind") && len(marks) == 0 {
+				r.addressed = nil // the reconcile returned before Bind (request finished, pod gone or already bound): no sync ran
+			}
+			if r.unboundAfterCleanBind != "" {
+				step.After = s.Snapshot()
+				w.trace.Steps = append(w.trace.Steps, step)
+				return "clean-bind-fails", fmt.Sprintf("step %d: %s", oi, r.unboundAfterCleanBind), w
+			}
 		}
-		needExtraSync := false
+		crashed := s.Crashed()
 		for j, r := range results {
 			ty := op.Type
 			if ty == "batch" {
@@ -613,16 +774,33 @@ func execute(c *Case, choose func(step int, ready []int) int) (sig, msg string, 
 					r.firedSync = true
 				}
 			}
-			if r.firedSync {
-				needExtraSync = true
+			if pi := w.podOf(op, j); pi != nil && pi.multi && secondLabelPatchFailed(r.calls, pi) {
+				w.class("multi-fraction-2nd-label-patch-failed")
 			}
 			if betweenCreateAndLabel(r.calls) {
 				w.nontriv = true
 				w.class("fault-between-reservation-create-and-label")
 			}
+			switch {
+			case crashed:
+			case r.firedSync:
+				// a failure hit the very sync that follows the event: for the groups that sync was about, the
+				// next sync that covers them is the one to judge
+				for _, g := range r.addressed {
+					w.tainted[g] = true
+				}
+				w.class("faulted-sync:groups-deferred")
+			case op.Type != "batch" && !r.fired:
+				for _, g := range r.addressed {
+					if w.tainted[g] {
+						w.class("deferred-group-judged-after-covering-sync:" + ty)
+					}
+					delete(w.tainted, g)
+				}
+			}
 		}
 		// crashes are followed by a restart and the start-up Sync()
-		if s.Crashed() {
+		if crashed {
 			w.class("crash+restart")
 			s.Restart()
 			w.proc = s.NewProc()
@@ -631,20 +809,33 @@ func execute(c *Case, choose func(step int, ready []int) int) (sig, msg string, 
 				return "sync-fails", fmt.Sprintf("fault-free start-up Sync() fails: %v", err), w
 			}
 			step.Restart = strs(s.TakeCalls())
-			needExtraSync = false
+			w.tainted = map[string]bool{}
 		}
-		// a failure that hit the very sync that follows an event: the next sync is the one to judge
-		if needExtraSync {
-			w.class("extra-sync-after-faulted-sync")
+		if oi == len(c.Ops)-1 && len(w.tainted) > 0 {
+			w.class("final-sync-for-deferred-groups")
 			s.Begin(0, nil)
 			if err := w.proc.RRS.Sync(context.Background()); err != nil {
 				return "sync-fails", fmt.Sprintf("fault-free Sync() fails: %v", err), w
 			}
 			step.Extra = strs(s.TakeCalls())
+			w.tainted = map[string]bool{}
 		}
 		sn := s.Snapshot()
 		step.After = sn
+		step.Deferred = sim.SortedKeys(w.tainted)
 		w.trace.Steps = append(w.trace.Steps, step)
+		// a dedicated signature for what a re-bind does to the groups the pod still carried (same clauses as
+		// judge, narrower name)
+		for _, r := range results {
+			for _, g := range r.staleAtRebind {
+				if pv, ok := sn.Pods[w.podKeyOf(op)]; ok && pv.Node != "" && contains(pv.Groups, g) {
+					return "rebind-keeps-stale-label", fmt.Sprintf("after step %d (%s): the pod was bound into %v and still carries group %s of its dropped request", oi, step.Op, op.Groups, g), w
+				}
+				if len(sn.ReservationsOf(g)) > 0 && len(sn.LiveCarriers(g)) == 0 && !w.tainted[g] {
+					return "rebind-leaves-old-group", fmt.Sprintf("after step %d (%s): the pod left group %s for %v; the reservation pod of %s has no consumer any more and no sync followed", oi, step.Op, g, op.Groups, g), w
+				}
+			}
+		}
 		if sig, msg := w.judge(sn); sig != "" {
 			return sig, fmt.Sprintf("after step %d (%s): %s", oi, step.Op, msg), w
 		}
@@ -694,6 +885,36 @@ func overlapOnGroup(rs []*opResult) bool {
 	return false
 }
 
+func (w *world) podOf(op *Op, j int) *podInfo {
+	o := *op
+	if op.Type == "batch" {
+		o = op.Ops[j]
+	}
+	switch o.Type {
+	case "bind", "retry", "rebind":
+		return w.pods[o.Pod]
+	}
+	return nil
+}
+
+// secondLabelPatchFailed: an injected error at the consumer's label patch for its 2nd or later group.
+func secondLabelPatchFailed(calls []sim.Call, pi *podInfo) bool {
+	ord := 0
+	for _, cl := range calls {
+		if cl.Phase != "bind" || cl.Verb != "patch" || cl.Kind != "Pod" || cl.Key != pi.ns+"/"+pi.name {
+			continue
+		}
+		ord++
+		if ord > len(pi.groups) {
+			return false
+		}
+		if cl.Injected == "error" && ord >= 2 {
+			return true
+		}
+	}
+	return false
+}
+
 // betweenCreateAndLabel: an injected failure / crash / mute hit after a reservation pod was created
 // and before the consumer's label patch went through.
 func betweenCreateAndLabel(calls []sim.Call) bool {
@@ -723,13 +944,16 @@ func (w *world) judge(sn *sim.Snapshot) (string, string) {
 	}
 	// I3: reservation pod exists <=> a live (Pending/Running) pod carries the group
 	for _, r := range sn.Reservations {
+		if w.tainted[r.Group] {
+			continue
+		}
 		if len(sn.LiveCarriers(r.Group)) == 0 {
 			return "reservation-without-consumer", fmt.Sprintf("reservation pod %s (group %s, node %s) exists but no Pending/Running pod carries the group", r.Name, r.Group, r.Node)
 		}
 	}
 	for _, g := range sn.AllGroups() {
 		carriers := sn.LiveCarriers(g)
-		if len(carriers) == 0 || len(sn.ReservationsOf(g)) > 0 {
+		if len(carriers) == 0 || len(sn.ReservationsOf(g)) > 0 || w.tainted[g] {
 			continue
 		}
 		for _, k := range carriers {
@@ -830,6 +1054,9 @@ func TestCheckReservationTracking(t *testing.T) {
 			return
 		}
 		record(c, w)
+		if sig != "" && kit.Known(prop, sig) {
+			return // listed under "known" in /verif/known_findings.json: counted, the search goes on
+		}
 		if sig != "" {
 			path := kit.Violation(prop, sig, msg, c, w.trace)
 			t.Fatalf("VIOLATION %s: %s (%s)", sig, msg, path)
